@@ -137,6 +137,13 @@ func runC05(c *Ctx) {
 	margs := g.callArgs(mn)
 	secFlags := vis.Params[1]
 	secAddr := vis.Params[2]
+	// the visitor's parameters are named by position in the polynomial forms
+	if len(vis.Params) >= 4 {
+		paramRoleName[vis.Params[1]], paramRoleName[vis.Params[2]], paramRoleName[vis.Params[3]] = "secFlags", "secAddress", "secSize"
+	}
+	if len(setup.Params) >= 1 {
+		paramRoleName[setup.Params[0]] = "kernelPageOffset"
+	}
 
 	// ---- R1 ----
 	c.floor("C05.R1", 4)
@@ -232,38 +239,30 @@ func runC05(c *Ctx) {
 	// ---- R3 ----
 	c.floor("C05.R3", 1)
 	bad = ""
-	pagePhi, _ := margs[1].(*ssa.Phi)
-	framePhi, _ := margs[2].(*ssa.Phi)
-	if pagePhi == nil || framePhi == nil || pagePhi.Block() != framePhi.Block() {
-		bad = "page and frame are not loop variables of the same loop"
-	} else {
-		checkPhi := func(phi *ssa.Phi, wantInit, what string) {
-			init, step := false, false
-			for _, e := range phi.Edges {
-				pe := z.Of(e)
-				if pe.equal(polyAtom(z.defaultAtom(phi)).add(polyConst(1), 1)) {
-					step = true
-				} else if pe.String() == wantInit {
-					init = true
-				} else if bad == "" {
-					bad = what + " starts at " + pe.String() + ", expected " + wantInit
-				}
-			}
-			if bad == "" && (!init || !step) {
-				bad = what + " does not start at " + wantInit + " and advance by one"
-			}
-		}
-		checkPhi(pagePhi, "fdiv12(secAddress)", "the page")
-		checkPhi(framePhi, "fdiv12(-kernelPageOffset + secAddress)", "the frame")
-		if bad == "" {
-			last := "fdiv12(-1 + secAddress + secSize)"
-			if !hasFact(facts, func(f Fact) bool {
-				if f.Y == nil {
-					return false
-				}
-				return f.Op == token.LEQ && f.X == ssa.Value(pagePhi) && z.Of(f.Y).String() == last || f.Op == token.GEQ && f.Y == ssa.Value(pagePhi) && z.Of(f.X).String() == last
-			}) {
-				bad = "the loop does not run while page <= " + last
+	// the section loop in induction form: page and frame of iteration T, trip count
+	{
+		secA, secS, off := polyAtom("secAddress"), polyAtom("secSize"), polyAtom("kernelPageOffset")
+		firstPage := pFdiv(12, secA)
+		lastPage := pFdiv(12, secA.add(secS, 1).add(polyConst(1), -1))
+		firstFrame := pFdiv(12, secA.add(off, -1))
+		one := func(p Poly) bool { k, ok := p.isConst(); return ok && k == 1 }
+		lf, inLoop := g.loopFormAt(z, g.Ins[mn].Block())
+		if !inLoop {
+			bad = "page and frame are not loop variables of the same loop"
+		} else {
+			p0, pStep, okP := lf.affineInT(margs[1])
+			f0, fStep, okF := lf.affineInT(margs[2])
+			trips, tripsOK := lf.Trips, lf.TripsOK
+			lf.Done()
+			switch {
+			case !okP || !okF || !one(pStep) || !one(fStep):
+				bad = "page and frame are not loop variables of the same loop advancing by one"
+			case !p0.equal(firstPage):
+				bad = "the page starts at " + p0.String() + ", expected " + firstPage.String()
+			case !f0.equal(firstFrame):
+				bad = "the frame starts at " + f0.String() + ", expected " + firstFrame.String()
+			case !tripsOK || !trips.equal(lastPage.add(firstPage, -1).add(polyConst(1), 1)):
+				bad = "the loop does not run while page <= " + lastPage.String()
 			}
 		}
 	}
